@@ -4,6 +4,7 @@ C04 forward direction, step 4: from the abstract contract of `statement_list_top
 token-kind sequence is never longer than the input, and the builder ends with exactly one root.
 -/
 import TgModel.Lemmas.C04Contracts3
+import TgModel.Lemmas.ParserFinish
 
 namespace Tg
 namespace C04L
@@ -17,11 +18,13 @@ theorem exec_seq (defs : Defs) (rc : List TokenKind) (n : Nat) (a b : Prog) (s :
   rw [exec]
   cases exec defs rc n a s <;> rfl
 
-/-- forward direction with the tree: no errors, and every node of the tree hands all its child nodes to
-its typed accessors (`goodT`) -/
-theorem forward_tree (input : List Char) (p : Frag.Program)
+/-- forward direction with the tree, whatever the end of the text is like: the only errors are the
+ones `ParserBase::finish` appends for a message left in the token source (`endErrors input`: an
+unterminated conditional — preprocessor directives are trivia, so `kinds` does not see them), and
+every node of the tree hands all its child nodes to its typed accessors (`goodT`) -/
+theorem forward_tree_end (input : List Char) (p : Frag.Program)
     (h : (PState.init input).kinds = p.render) :
-    ∃ r, parse input = .ok r ∧ r.errors = [] ∧ goodT r.tree = true := by
+    ∃ r, parse input = .ok r ∧ r.errors = endErrors input ∧ goodT r.tree = true := by
   -- fuel
   have hlen : p.render.length ≤ input.length := by rw [← h]; exact init_kinds_length input
   obtain ⟨k, hk⟩ : ∃ k, parseFuel input = k + 6 := ⟨parseFuel input - 6, by unfold parseFuel; omega⟩
@@ -57,9 +60,10 @@ theorem forward_tree (input : List Char) (p : Frag.Program)
         (seq (ifAt [.Eof] nop (error "unexpected input at top level")) finishNode)) s1 = s2.finishNode := by
       rw [exec_seq, he2]; exact e34
     rw [exec_seq, e1]; simp only []; rw [e234, hfin]
-  refine ⟨{ tree := Tree.node .SourceFile s2.b.cur.reverse, errors := s2.errors.reverse, steps := s2.steps }, ?_, ?_, ?_⟩
-  · unfold parse; rw [hrun]
-  · show s2.errors.reverse = []
+  refine ⟨{ tree := Tree.node .SourceFile s2.b.cur.reverse, errors := endErrors input, steps := s2.steps }, ?_, rfl, ?_⟩
+  · rw [Grammar.parse_ok_iff]
+    refine ⟨_, hrun, rfl, rfl, ?_, rfl⟩
+    show endErrors input = s2.errors.reverse ++ endErrors input
     rw [herr2]; rfl
   · show goodT (Tree.node .SourceFile s2.b.cur.reverse) = true
     obtain ⟨t1, t2⟩ := habs2.fr.top
@@ -67,10 +71,27 @@ theorem forward_tree (input : List Char) (p : Frag.Program)
     refine ⟨?_, by rw [goodL_reverse]; exact t2⟩
     rw [kindsOf_reverse, t1]; rfl
 
-theorem forward_partial (input : List Char) (p : Frag.Program)
+theorem endErrors_of_clean {input : List Char} (hend : Src.endMessage input = none) : endErrors input = [] := by
+  unfold endErrors; rw [hend]
+
+/-- forward direction with the tree: no errors when no message is left in the token source at the
+end of the text, and every node of the tree hands all its child nodes to its typed accessors -/
+theorem forward_tree (input : List Char) (p : Frag.Program)
+    (h : (PState.init input).kinds = p.render) (hend : Src.endMessage input = none) :
+    ∃ r, parse input = .ok r ∧ r.errors = [] ∧ goodT r.tree = true := by
+  obtain ⟨r, h1, h2, h3⟩ := forward_tree_end input p h
+  exact ⟨r, h1, by rw [h2, endErrors_of_clean hend], h3⟩
+
+theorem forward_partial_end (input : List Char) (p : Frag.Program)
     (h : (PState.init input).kinds = p.render) :
+    ∃ r, parse input = .ok r ∧ r.errors = endErrors input := by
+  obtain ⟨r, h1, h2, _⟩ := forward_tree_end input p h
+  exact ⟨r, h1, h2⟩
+
+theorem forward_partial (input : List Char) (p : Frag.Program)
+    (h : (PState.init input).kinds = p.render) (hend : Src.endMessage input = none) :
     ∃ r, parse input = .ok r ∧ r.errors = [] := by
-  obtain ⟨r, h1, h2, _⟩ := forward_tree input p h
+  obtain ⟨r, h1, h2, _⟩ := forward_tree input p h hend
   exact ⟨r, h1, h2⟩
 
 end C04L
